@@ -97,7 +97,130 @@ pub enum Call {
     PredTree(Vec<Option<usize>>, usize, usize, u8),
     PredTreeNew(usize, usize),
     Prng(u64, u8),
+    /// AdjacencyListWeighted<W> with a weight type other than isize/usize
+    /// (0 `()`, 1 `Box<u32>`, 2 `String`, 3 `[u64; 4]`, 4 `u8`), order, then
+    /// (op, u, v): 0 add_arc_weighted, 1 remove_arc, 2 arc_weight, 3 clone +
+    /// arcs_weighted, 4 converse (Copy types), 5 rebuild through From<rows>,
+    /// 6 out_neighbors_weighted(u), 7 overwrite weight of (u, v)
+    Weights(u8, usize, Vec<(u8, usize, usize)>),
 }
+
+/// The `size_hint` an iterator handed to graaf reports for `len` items.  Modes
+/// 0..8 are exact, 12..16 honest but loose, 8..12 lie (an upper bound that is
+/// too small, a lower bound that is too large): safe code may answer a lying
+/// hint with any value or a panic, never with undefined behaviour.
+pub fn hint_for(mode: u8, len: usize) -> (usize, Option<usize>) {
+    match mode % 16 {
+        8 => (0, Some(0)),
+        9 => (0, Some(len.saturating_sub(1))),
+        10 => (len + 3, None),
+        11 => (len + 1, Some(len + 1)),
+        12 => (0, None),
+        13 => (len / 2, None),
+        14 => (len.min(1), Some(len + 5)),
+        15 => (0, Some(len)),
+        _ => (len, Some(len)),
+    }
+}
+
+pub fn hint_lies(mode: u8) -> bool {
+    (8..12).contains(&(mode % 16))
+}
+
+fn hinted<T>(items: Vec<T>, mode: u8) -> crate::gen::Hinted<std::vec::IntoIter<T>> {
+    let h = hint_for(mode, items.len());
+    crate::gen::hinted_any(items, h)
+}
+
+/// The same predecessor vector reached through the different public routes:
+/// the constructor, the public field, Index/IndexMut, Clone.
+pub fn build_tree(pred: &[Option<usize>], build: u8) -> PredecessorTree {
+    let n = pred.len();
+    if n == 0 {
+        return PredecessorTree::from(pred.to_vec());
+    }
+    match build % 8 {
+        1 => {
+            let mut t = PredecessorTree::new(n);
+            for (v, p) in pred.iter().enumerate() {
+                t[v] = *p;
+            }
+            t
+        }
+        2 => {
+            let mut t = PredecessorTree::new(1);
+            t.pred = pred.to_vec();
+            t
+        }
+        3 => {
+            // grown through the public field after construction
+            let k = (n / 2).max(1);
+            let mut t = PredecessorTree::new(k);
+            for v in 0..k {
+                t.pred[v] = pred[v];
+            }
+            for p in &pred[k..] {
+                t.pred.push(*p);
+            }
+            t
+        }
+        4 => {
+            // shrunk through the public field
+            let mut v = pred.to_vec();
+            v.extend([Some(0), None, Some(n)]);
+            let mut t = PredecessorTree::from(v);
+            t.pred.truncate(n);
+            t
+        }
+        5 => PredecessorTree::from(pred.to_vec()).clone(),
+        6 => {
+            let mut t = PredecessorTree::new(n + 3);
+            t.clone_from(&PredecessorTree::from(pred.to_vec()));
+            t
+        }
+        7 => {
+            let mut t = PredecessorTree::new(1);
+            t.pred.extend(pred[1..].iter().copied());
+            t.pred[0] = pred[0];
+            t
+        }
+        _ => PredecessorTree::from(pred.to_vec()),
+    }
+}
+
+fn weights<W: Clone + std::fmt::Debug>(order: usize, ops: &[(u8, usize, usize)], mk: impl Fn(usize, usize) -> W, converse: Option<&dyn Fn(&AdjacencyListWeighted<W>) -> AdjacencyListWeighted<W>>) -> u64 {
+    let mut g = AdjacencyListWeighted::<W>::empty(order);
+    let mut acc = 0_u64;
+    for &(op, u, v) in ops {
+        let r = guarded(|| match op % 8 {
+            0 | 7 => {
+                g.add_arc_weighted(u, v, mk(u, v + usize::from(op % 8 == 7)));
+                0
+            }
+            1 => u64::from(g.remove_arc(u, v)),
+            2 => g.arc_weight(u, v).map_or(0, |w| format!("{w:?}").len() as u64),
+            3 => {
+                let c = g.clone();
+                eat(c.arcs_weighted())
+            }
+            4 => converse.map_or(0, |f| {
+                let c = f(&g);
+                let n = eat(c.arcs_weighted());
+                g = f(&c);
+                n
+            }),
+            5 => {
+                let rows: Vec<BTreeMap<usize, W>> = (0..g.order()).map(|u| g.out_neighbors_weighted(u).map(|(v, w)| (v, w.clone())).collect()).collect();
+                g = AdjacencyListWeighted::from(rows);
+                g.size() as u64
+            }
+            _ => eat(g.out_neighbors_weighted(u)),
+        });
+        acc = acc.wrapping_mul(7).wrapping_add(r.unwrap_or(99));
+    }
+    acc
+}
+
 
 pub const Q0_NAMES: [&str; 17] = [
     "order",
@@ -340,7 +463,8 @@ fn traverse<D>(g: &D, algo: u8, sources: &[usize], consumer: u8, targets: &[usiz
 where
     D: Order + OutNeighbors + Clone,
 {
-    let src = || sources.iter().copied();
+    let (hint, steps) = (steps / 8, steps % 8);
+    let src = || hinted(sources.to_vec(), hint);
     let is_t = |v: usize| targets.contains(&v);
     let boom = |v: usize| {
         assert!(!targets.contains(&v), "target predicate panics on purpose");
@@ -412,7 +536,8 @@ where
 }
 
 fn dijkstra(g: &AdjacencyListWeighted<usize>, algo: u8, sources: &[usize], consumer: u8, targets: &[usize], steps: u8) -> u64 {
-    let src = || sources.iter().copied();
+    let (hint, steps) = (steps / 8, steps % 8);
+    let src = || hinted(sources.to_vec(), hint);
     let is_t = |v: usize| targets.contains(&v);
     let boom = |v: usize| {
         assert!(!targets.contains(&v), "target predicate panics on purpose");
@@ -721,22 +846,22 @@ pub fn exec(d: &mut AnyD, call: &Call) -> u64 {
         Call::FromRows(target, rows) => match target % 3 {
             0 => {
                 let r: Vec<BTreeSet<usize>> = rows.iter().map(|r| r.iter().copied().collect()).collect();
-                eat(AdjacencyList::from(r).arcs())
+                eat(AdjacencyList::from(hinted(r, target / 3)).arcs())
             }
             1 => {
                 let r: Vec<BTreeSet<usize>> = rows.iter().map(|r| r.iter().copied().collect()).collect();
-                eat(AdjacencyMap::from(r).arcs())
+                eat(AdjacencyMap::from(hinted(r, target / 3)).arcs())
             }
             _ => {
                 let r: Vec<BTreeMap<usize, usize>> = rows.iter().map(|r| r.iter().map(|&v| (v, v + 1)).collect()).collect();
-                eat(AdjacencyListWeighted::<usize>::from(r).arcs())
+                eat(AdjacencyListWeighted::<usize>::from(hinted(r, target / 3)).arcs())
             }
         },
         Call::FromArcs(target, arcs) => {
             if target % 2 == 0 {
-                eat(AdjacencyMatrix::from(arcs.clone()).arcs())
+                eat(AdjacencyMatrix::from(hinted(arcs.clone(), target / 2)).arcs())
             } else {
-                eat(EdgeList::from(arcs.clone()).arcs())
+                eat(EdgeList::from(hinted(arcs.clone(), target / 2)).arcs())
             }
         }
         Call::Gen(repr, kind, n, m2, seed, pk) => match repr % 4 {
@@ -813,7 +938,7 @@ pub fn exec(d: &mut AnyD, call: &Call) -> u64 {
             }
         }
         Call::PredTree(p, s, t, mode) => {
-            let tree = PredecessorTree::from(p.clone());
+            let tree = build_tree(p, mode / 5);
             match mode % 5 {
                 4 => {
                     // a predicate that panics at its (t % 4 + 1)-th invocation
@@ -836,6 +961,13 @@ pub fn exec(d: &mut AnyD, call: &Call) -> u64 {
             t[*i] = Some(*i);
             t.search(*i, 0).map_or(0, |x| x.len() as u64)
         }
+        Call::Weights(ty, order, ops) => match ty % 5 {
+            0 => weights::<()>(*order, ops, |_, _| (), Some(&|g| g.converse())),
+            1 => weights::<Box<u32>>(*order, ops, |u, v| Box::new((u * 10 + v) as u32), None),
+            2 => weights::<String>(*order, ops, |u, v| format!("w{u}-{v}-{}", "x".repeat(v % 40)), None),
+            3 => weights::<[u64; 4]>(*order, ops, |u, v| [u as u64, v as u64, 3, 4], Some(&|g| g.converse())),
+            _ => weights::<u8>(*order, ops, |u, v| (u * 16 + v) as u8, Some(&|g| g.converse())),
+        },
         Call::Prng(seed, n) => {
             let mut r = Xoshiro256StarStar::new(*seed);
             let mut acc = 0_u64;
